@@ -534,6 +534,9 @@ def main(run):
     t03_text.run_text_stage(run, n=(90 if run.tier == "quick" else 1500))
     import t05_text   # extra stage (extension T05): register / balance / balance-group TEXT of these cases under conversion and rounding
     t05_text.run_c07_stage(run, cases)
+    # ... and T05's own worlds (accounts shared between transactions and commodities, so that running totals and
+    # account sums really add converted amounts of different source commodities)
+    t05_text.run_text_stage(run, n=(40 if run.tier == "quick" else 600))
     return run.finish(info)
 
 
